@@ -196,16 +196,17 @@ Qed.
 Lemma esc_loop_adv n base mx offs s x : adv s (snd (esc_loop n base mx offs s x)).
 Proof.
   revert s x; induction n as [|n IH]; intros s x; cbn [esc_loop].
-  - destruct (_ || _); cbn [snd]; [apply adv_err|apply adv_refl].
+  - destruct (esc_invalid mx x); cbn [snd]; [apply adv_err|apply adv_refl].
   - destruct (base <=? _); cbn [snd]; [apply adv_err|]. eapply adv_trans; [apply adv_nxt|apply IH].
 Qed.
 
 Lemma scan_escape_adv q s : adv s (snd (scan_escape q s)).
 Proof.
-  unfold scan_escape.
-  repeat match goal with |- context[if ?c then _ else _] => destruct c end; cbn [snd];
-    try apply adv_nxt; try apply adv_err; try apply esc_loop_adv;
-    (eapply adv_trans; [apply adv_nxt|apply esc_loop_adv]).
+  unfold scan_escape. destruct (esc_simple q (cur s)); cbn [snd]; [apply adv_nxt|].
+  destruct (esc_numeric (cur s)) as [[[[n base] mx] [|]]|]; cbn [snd].
+  - eapply adv_trans; [apply adv_nxt|apply esc_loop_adv].
+  - apply esc_loop_adv.
+  - apply adv_err.
 Qed.
 
 Lemma scan_string_adv fuel offs s : adv s (scan_string fuel offs s).
